@@ -1851,3 +1851,10 @@ _scale("C11", "scale_tlv", None, 6, 120, 240, 8)
 _scale("C12", "scale_tlvview", None, 8, 160, 320, 4)
 # > 1024 borrowed pieces through the Encoder / Decoder with no drain, megabyte streams: round trip of drained ++ finish()
 _scale("C01", "scale_codec", ["A", "R"], 4, 160, 320, 4)
+
+
+# C02 also quantifies over the input METHOD of each piece, and `encode_read` (with its failing reads) is
+# one: the structural codec family exercises it (seed C02-5: a failed `encode_read` flushed the held-back
+# FE, so a following piece starting with FD put a literal FE FD on the wire).
+import copy as _copy
+SPECS["C02"]["families"] += [_copy.deepcopy(f) for f in SPECS["C01"]["families"] if f["name"] in ("codecw", "scale_codec")]
